@@ -47,6 +47,7 @@ class BraceOcc:
     parts: Optional[List[Any]]        # str | int | Fraction | float in order; None = structure not asserted
     prose: bool
     where: str
+    alt: bool = False                 # inside image alt text: rendered as plain text, not scaled
 
 
 @dataclass
@@ -177,7 +178,7 @@ class Ctx:
         self.allow_multiline = allow_multiline
 
     # -- brace occurrences ---------------------------------------------------------------------
-    def brace(self, prose: bool, where: str, nospace: bool = False) -> Tuple[str, str]:
+    def brace(self, prose: bool, where: str, nospace: bool = False, alt: bool = False) -> Tuple[str, str]:
         rng = self.rng
         simple = rng.random() < 0.92 or not prose
         for _ in range(50):
@@ -196,10 +197,10 @@ class Ctx:
             self.doc.comparable = False
             self.doc.tags.append("brace-multiline")
         i = len(self.doc.braces)
-        self.doc.braces.append(BraceOcc(body, parts, prose, where))
+        self.doc.braces.append(BraceOcc(body, parts, prose, where, alt))
         self.doc.tags.append("brace@" + where)
         real = "{" + body + "}"
-        return real, (sentinel(i) if prose else real)
+        return real, (sentinel(i) if prose or alt else real)
 
     def words(self) -> Tuple[str, str]:
         w = self.rng.choice(PROSE)
@@ -217,7 +218,7 @@ class Ctx:
     def inline(self, depth: int = 0) -> Tuple[str, str]:
         """One inline construct (surrounded by blanks by the caller)."""
         rng = self.rng
-        k = rng.randrange(16 if depth == 0 else 6)
+        k = rng.randrange(17 if depth == 0 else 6)
         if k <= 2:
             return self.prose_run("text")
         if k == 3:
@@ -262,6 +263,14 @@ class Ctx:
             return f"*outer **{a}** end*", f"*outer **{b}** end*"
         if k == 13:
             return "hard  \nbreak", "hard  \nbreak"
+        if k == 16:
+            a, b = self.brace(False, "image-alt", alt=True)
+            form = rng.randrange(3)
+            if form == 0:
+                return f"![alt {a} text](pic.png)", f"![alt {b} text](pic.png)"
+            if form == 1:
+                return f"![*em {a}* x](pic.png \"t\")", f"![*em {b}* x](pic.png \"t\")"
+            return f"![{a}](pic.png)", f"![{b}](pic.png)"
         if k == 14:
             return "&lt;tag&gt; &#123;2&#125; \\{3\\}", "&lt;tag&gt; &#123;2&#125; \\{3\\}"
         return self.words()
@@ -285,9 +294,11 @@ TITLES = ["Spam", "Spam and eggs", "Fish &amp; chips", "Pie for two people", "4 
           "Soup: a classic", "Bread > toast"]
 
 
-def gen_heading(c: Ctx, first: bool) -> Tuple[List[str], List[str]]:
+def gen_heading(c: Ctx, first: bool, force_h1: bool = False) -> Tuple[List[str], List[str]]:
     rng, doc = c.rng, c.doc
     level = rng.choice([1, 1, 1, 2, 3]) if first else rng.choice([1, 2, 2, 3, 6])
+    if force_h1:
+        level = 1
     k = rng.randrange(10)
     info = HeadingInfo(level, "unscalable")
     import html as _html
@@ -325,7 +336,7 @@ def gen_heading(c: Ctx, first: bool) -> Tuple[List[str], List[str]]:
         info = HeadingInfo(level, "either")
     setext = level <= 2 and rng.random() < 0.25 and not real.startswith(("#", "-", "=", ">", "    "))
     if setext:
-        under = ("=" if level == 1 else "-") * rng.choice([1, 3, 8])
+        under = ("=" if level == 1 else "-") * rng.choice([3, 3, 8])
         if info.kind == "scalable" and rng.random() < 0.3:
             # multi-line setext heading: the serving phrase on its own line
             real = plain = f"{info.title}\n{rng.choice(['for', 'serves'])} {info.count}"
@@ -344,7 +355,7 @@ def gen_heading(c: Ctx, first: bool) -> Tuple[List[str], List[str]]:
 # --------------------------------------------------------------------------- recipes
 
 INGREDIENTS = ["egg", "onion", "can tomatoes", "pack of {4} buns", "carrot", "crème", "lemon"]
-UNITS = ["", "", " can", "g", " tsp", " cup", "kg"]
+UNITS = ["", "", "", " can", " pack", " bunch", " can", "g", " tsp"]
 STEPS = ["fry", "boil", "mix", "chop and fry", "bake for {10} min"]
 NAMES = ["sauce", "dough", "filling", "stock"]
 
@@ -514,7 +525,11 @@ def gen_doc(rng: random.Random, max_blocks: int = 8) -> GenDoc:
     plain: List[str] = []
     n = rng.choice([1, 2, 3, 4, 5, 6, max_blocks])
     for i in range(n):
-        a, b = gen_block(c, ns_box, 0, state)
+        if i == 0 and rng.random() < 0.4:
+            state["heading"] = True
+            a, b = gen_heading(c, True, force_h1=rng.random() < 0.8)
+        else:
+            a, b = gen_block(c, ns_box, 0, state)
         if i:
             real.append("")
             plain.append("")
@@ -533,10 +548,13 @@ def gen_doc(rng: random.Random, max_blocks: int = 8) -> GenDoc:
     return doc
 
 
-# --------------------------------------------------------------------------- the known crash
+# --------------------------------------------------------------------------- brace expressions in image alt text
+# (crashed with AttributeError before the fix "brace expressions inside image alt text render as plain text")
 
 IMAGE_ALT_DOCS = [
     "![a {2} b](x.png)\n",
     "# Title\n\nSee ![{1/2} cup](cup.png \"t\") here.\n",
     "![*nested {3} emphasis*](y.png)\n",
+    "![a {2} <b> {1/2} c &amp; {1.50} ' \" {x &lt; y}](x.png)\n",
+    "# ![{4}](t.png) for 2\n\n![100% {1 1/2}](p.png) and {3}\n",
 ]
